@@ -814,3 +814,22 @@ Proof.
       destruct (spec_run_ext cfg (opens_of t) _ _ S') as [D' F'].
       split; [rewrite A', D, D'; reflexivity|intro a; rewrite F, F'; reflexivity].
 Qed.
+
+(** notifications, state and processing do not depend on whether clients wait for their
+    responses: only what each client sees of its own response does *)
+Lemma run_b_independent : forall cfg brqs ost,
+  fst (run_b cfg ost brqs) = fst (run cfg ost (map fst brqs)) /\
+  map snd (snd (run_b cfg ost brqs)) = map snd (snd (run cfg ost (map fst brqs))) /\
+  map fst (snd (run_b cfg ost brqs)) =
+    map (fun x : (rrequest * bool) * (rresp * list event) => mask (snd (fst x)) (fst (snd x)))
+        (combine brqs (snd (run cfg ost (map fst brqs)))).
+Proof.
+  intros cfg brqs. induction brqs as [|[rq aw] t IH]; intro ost.
+  - cbn. repeat split.
+  - cbn [map fst run_b]. rewrite run_cons.
+    destruct (run_request cfg ost rq) as [[ost1 resp] evs].
+    specialize (IH ost1).
+    destruct (run_b cfg ost1 t) as [ob outb]. destruct (run cfg ost1 (map fst t)) as [o2 out].
+    cbn [fst snd map combine] in *. destruct IH as [I1 [I2 I3]].
+    split; [exact I1|]. split; [f_equal; exact I2|f_equal; exact I3].
+Qed.
